@@ -99,6 +99,38 @@ def _find_fn(toks, lo, hi, name):
     return hits[0]
 
 
+def _find_const(toks, lo, hi, name):
+    """Find `const name :` at brace depth 0 relative to [lo,hi). Returns (start, end_exclusive) up to and including `;`."""
+    depth = 0
+    i = lo
+    hits = []
+    while i < hi:
+        k, t = toks[i]
+        if k == 'p' and t in rtok.OPEN:
+            depth += 1
+        elif k == 'p' and t in rtok.CLOSE:
+            depth -= 1
+        elif depth == 0 and (k, t) == ('id', 'const') and i + 2 < hi and toks[i + 1] == ('id', name) and toks[i + 2] == ('p', ':'):
+            j = i
+            d = 0
+            while j < hi:
+                kk, tt = toks[j]
+                if kk == 'p' and tt in rtok.OPEN:
+                    d += 1
+                elif kk == 'p' and tt in rtok.CLOSE:
+                    d -= 1
+                elif d == 0 and (kk, tt) == ('p', ';'):
+                    hits.append((i, j + 1))
+                    break
+                j += 1
+        i += 1
+    if not hits:
+        raise ExtractError('const %s not found' % name)
+    if len(hits) > 1:
+        raise ExtractError('const %s ambiguous (%d hits)' % (name, len(hits)))
+    return hits[0]
+
+
 def _find_container(toks, lo, hi, header):
     """Find a block `header {` at depth 0 in [lo,hi); return (body_lo, body_hi) inside braces.
     `header#K` (K = 0, 1, ..) selects the K-th of several blocks with the same header (e.g. the two `impl IBig`
@@ -197,6 +229,10 @@ def locate(repo, locator):
     name = rest[-1]
     if name == '@arm':
         return toks, lo, hi
+    if name.startswith('const '):
+        # rule E4: a `const NAME: T = ..;` item (e.g. a lookup table): span from `const` to the terminating `;`
+        s, e = _find_const(toks, lo, hi, name[6:].strip())
+        return toks, s, e
     s, e = _find_fn(toks, lo, hi, name)
     return toks, s, e
 
